@@ -415,3 +415,120 @@ theorem validUtf8_renderDocument (j : J) (hj : TextOk j) : validUtf8 (renderDocu
   · exact evUtf8_end _ (validUtf8_lit _ (by decide))
 
 end Gd.CliPlan
+
+namespace Gd.CliPlan
+open Gd Gd.Cli
+
+/-! ### `main`, step by step -/
+
+@[simp] theorem Step.bind_ok (a : α) (f : α → Step β) : (Step.ok a >>= f) = f a := rfl
+@[simp] theorem Step.bind_usage (f : α → Step β) : ((Step.usage : Step α) >>= f) = .usage := rfl
+@[simp] theorem Step.bind_fail (e : CliError) (f : α → Step β) : ((Step.fail e : Step α) >>= f) = .fail e := rfl
+@[simp] theorem Step.bind_panic (f : α → Step β) : ((Step.panic : Step α) >>= f) = .panic := rfl
+@[simp] theorem Step.bind_unmodelled (f : α → Step β) : ((Step.unmodelled : Step α) >>= f) = .unmodelled := rfl
+@[simp] theorem Step.pure_eq (a : α) : (pure a : Step α) = .ok a := rfl
+
+/-- `plan` spelled out: the four ways it can end -/
+theorem plan_eq (resolve : Bytes → Option Http.IpAddr) (fl : Flags) :
+    plan resolve fl =
+      match clap fl with
+      | none => .usage
+      | some args =>
+        match lookupGame args.game with
+        | none => .fail (.unknownGame args.game)
+        | some row =>
+          match parseIpAddr args.ip with
+          | some ip => .ok ⟨row, false, ip, args.port, args.timeoutSettings, args.extraOptions, args.outputMode, args.format⟩
+          | none =>
+            match resolve args.ip with
+            | none => .fail (.invalidHostname args.ip)
+            | some ip =>
+              .ok ⟨row, true, ip, args.port, args.timeoutSettings, setHostnameIfMissing args.ip args.extraOptions,
+                args.outputMode, args.format⟩ := by
+  unfold plan
+  cases hc : clap fl with
+  | none => rfl
+  | some args =>
+    simp only [findGame, orFail, resolveIpOrDomain]
+    cases hg : lookupGame args.game with
+    | none => rfl
+    | some row =>
+      cases hp : parseIpAddr args.ip with
+      | some ip => simp
+      | none =>
+        cases hr : resolve args.ip with
+        | none => simp
+        | some ip => simp
+
+/-- a row found by `lookupGame` is a row of the table -/
+theorem lookupGame_mem {id : Bytes} {row : Gen.GameRow} (h : lookupGame id = some row) : row ∈ Gen.gameDefs :=
+  List.mem_of_find?_eq_some h
+
+theorem setHostnameIfMissing_spec (host : Bytes) (extra : Option Dispatch.Extra) :
+    ∃ e, setHostnameIfMissing host extra = some e
+      ∧ e.hostname = some ((extra.bind (·.hostname)).getD host)
+      ∧ e.protocolVersion = extra.bind (·.protocolVersion)
+      ∧ e.gatherPlayers = extra.bind (·.gatherPlayers)
+      ∧ e.gatherRules = extra.bind (·.gatherRules)
+      ∧ e.checkAppId = extra.bind (·.checkAppId) := by
+  cases extra with
+  | none => exact ⟨_, rfl, rfl, rfl, rfl, rfl, rfl⟩
+  | some e =>
+    cases hh : e.hostname with
+    | none =>
+      refine ⟨{ e with hostname := some host }, by simp [setHostnameIfMissing, hh], ?_, rfl, rfl, rfl, rfl⟩
+      simp [hh]
+    | some h => exact ⟨e, by simp [setHostnameIfMissing, hh], by simp [hh], rfl, rfl, rfl, rfl⟩
+
+/-- `main` spelled out after the plan -/
+theorem main_eq (env : Env) (fl : Flags) (w : Net) :
+    main env fl w =
+      match plan env.resolve fl with
+      | .ok p =>
+        match Dispatch.Game.ofRow p.row with
+        | none => .unmodelled
+        | some game =>
+          match (Dispatch.generic env.dispatch game p.port p.timeoutSettings p.extraOptions w).1 with
+          | .ok response => document env.ser p.format (valueFor p.outputMode (env.render response))
+          | .err kind => .fail (.gamedig kind)
+          | .crash => .panic
+      | .usage => .usage
+      | .fail e => .fail e
+      | .panic => .panic
+      | .unmodelled => .unmodelled := by
+  unfold main
+  cases hp : plan env.resolve fl with
+  | ok p =>
+    simp only [Step.bind_ok, query]
+    cases hg : Dispatch.Game.ofRow p.row with
+    | none => rfl
+    | some game =>
+      simp only [Step.bind_ok]
+      cases hq : Dispatch.generic env.dispatch game p.port p.timeoutSettings p.extraOptions w with
+      | mk result w' => cases result <;> rfl
+  | usage => rfl
+  | fail e => rfl
+  | panic => rfl
+  | unmodelled => rfl
+
+/-- `plan` never panics and never leaves the model -/
+theorem plan_ne_panic (resolve : Bytes → Option Http.IpAddr) (fl : Flags) :
+    plan resolve fl ≠ .panic ∧ plan resolve fl ≠ .unmodelled := by
+  rw [plan_eq]
+  constructor <;> (repeat' split) <;> simp
+
+theorem bsonDocument_cases (ser : Ser) (v : J) :
+    (ser.toBsonOk v = false ∧ bsonDocument ser v = .fail .bson)
+    ∨ (ser.toBsonOk v = true ∧ isObj v = false ∧ bsonDocument ser v = .panic)
+    ∨ (ser.toBsonOk v = true ∧ isObj v = true ∧ ser.bsonBytes v = none ∧ bsonDocument ser v = .fail .bson)
+    ∨ (∃ b, ser.toBsonOk v = true ∧ isObj v = true ∧ ser.bsonBytes v = some b ∧ bsonDocument ser v = .ok b) := by
+  unfold bsonDocument
+  cases h1 : ser.toBsonOk v
+  · exact Or.inl ⟨rfl, by simp⟩
+  · cases h2 : isObj v
+    · exact Or.inr (Or.inl ⟨rfl, rfl, by simp⟩)
+    · cases h3 : ser.bsonBytes v with
+      | none => exact Or.inr (Or.inr (Or.inl ⟨rfl, rfl, rfl, by simp [orFail]⟩))
+      | some b => exact Or.inr (Or.inr (Or.inr ⟨b, rfl, rfl, rfl, by simp [orFail]⟩))
+
+end Gd.CliPlan
